@@ -201,6 +201,11 @@ def create_allocation_list(context, data, consumers):
                 context, consumer_uuid)
             for allocation in allocations:
                 allocation.used = 0
+                # Use the consumer whose generation ensure_consumer()
+                # verified, not the one just re-read together with the
+                # allocations: the write must fail if the consumer changed
+                # in between.
+                allocation.consumer = consumer
                 allocation_objects.append(allocation)
 
     return allocation_objects
@@ -445,6 +450,11 @@ def _set_allocations_for_consumer(req, schema):
                 context, consumer_uuid)
             for allocation in allocations:
                 allocation.used = 0
+                # Use the consumer whose generation ensure_consumer()
+                # verified, not the one just re-read together with the
+                # allocations: the write must fail if the consumer changed
+                # in between.
+                allocation.consumer = consumer
                 allocation_objects.append(allocation)
         else:
             # If the body includes an allocation for a resource provider
